@@ -82,7 +82,12 @@ class Conv:
         if n == "Offset":
             return self.g.Offset(uuidlib.UUID(bytes=bytes(j["u"])), j_int(j["d"]))
         if n == "sequence":
-            return [self.to_py(t["subs"][0], x) for x in j]
+            items = [self.to_py(t["subs"][0], x) for x in j]
+            if t["subs"][0]["name"] == "uint8_t":
+                # any Sequence of small integers is a value of this type: also bytes and bytearray objects
+                self._seq = getattr(self, "_seq", 0) + 1
+                return [items, bytes(items), bytearray(items)][self._seq % 3]
+            return items
         if n == "set":
             return {self.to_py(t["subs"][0], x) for x in j}
         if n == "mapping":
